@@ -1058,11 +1058,126 @@ def _r14c(chk, repo) -> None:
         chk.require(not later, "R14c", st, "a later store can switch newline stripping back on after the comment guard", detail="comment guard is the last word")
 
 
+def _r14d(chk, repo) -> None:
+    from ..idioms import conditions_at
+
+    f = repo.fn("src/sqlfluff/rules/layout/LT09.py", "Rule_LT09._eval_single_select_target_element")
+    cfg = cfg_of(f)
+    n = 0
+
+    def says_no_comment(e, pol) -> bool:
+        if isinstance(e, ast.UnaryOp) and isinstance(e.op, ast.Not):
+            return says_no_comment(e.operand, not pol)
+        if not (isinstance(e, ast.Compare) and len(e.ops) == 1):
+            return False
+        l, op, r = e.left, e.ops[0], e.comparators[0]
+        if isinstance(r, ast.Attribute) and r.attr == "comment_after_select_idx":
+            l, r = r, l
+        if not (isinstance(l, ast.Attribute) and l.attr == "comment_after_select_idx"):
+            return False
+        minus1 = isinstance(r, ast.UnaryOp) and isinstance(r.op, ast.USub) and isinstance(r.operand, ast.Constant) and r.operand.value == 1
+        if minus1 and isinstance(op, ast.NotEq):
+            return not pol
+        if minus1 and isinstance(op, ast.Eq):
+            return pol
+        if isinstance(r, ast.Constant) and r.value == 0 and isinstance(op, ast.Lt):
+            return pol
+        if isinstance(r, ast.Constant) and r.value == 0 and isinstance(op, ast.GtE):
+            return not pol
+        return False
+
+    for r in [r for r in walk_local(f) if isinstance(r, ast.Return) and r.value is not None]:
+        vs = [o.expr for o in origins(cfg, r.value, r)] if isinstance(r.value, ast.Name) else [r.value]
+        for v in vs:
+            if not (isinstance(v, ast.Call) and last_attr(v) == "LintResult"):
+                continue
+            fx = kwarg(v, "fixes") or (v.args[1] if len(v.args) > 1 else None)
+            if fx is None or (isinstance(fx, ast.Constant) and fx.value is None):
+                continue
+            n += 1
+            ok = any(says_no_comment(e, pol) for e, pol in conditions_at(cfg, r))
+            chk.require(
+                ok, "R14d", r,
+                "LT09 returns fixes that move the single select target up to the SELECT line on a path where a comment may follow SELECT on that line "
+                "(`comment_after_select_idx == -1` is not known here): behind an inline comment the target becomes comment text",
+                detail="LT09 single target: fixes only when no comment follows SELECT on its line",
+            )
+    chk.count("R14d.fix_returns", n)
+    chk.floor("R14d.fix_returns", 1)
+    # the scan that sets comment_after_select_idx walks over everything that can stand between the
+    # SELECT keyword and the first target on that line
+    g = repo.fn("src/sqlfluff/rules/layout/LT09.py", "Rule_LT09._get_indexes")
+    gcfg = cfg_of(g)
+    scans = 0
+    for c in [c for c in ast.walk(g) if isinstance(c, ast.Call) and last_attr(c) == "select" and kwarg(c, "loop_while") is not None and kwarg(c, "stop_seg") is not None]:
+        if not any(isinstance(a, ast.Call) and last_attr(a) == "is_type" and any(isinstance(x, ast.Constant) and x.value == "comment" for x in a.args) for a in c.args):
+            continue
+        scans += 1
+        lw = kwarg(c, "loop_while")
+        if isinstance(lw, ast.Name):
+            os_ = origins(gcfg, lw, gcfg.stmt_of(c))
+            lw = os_[0].expr if len(os_) == 1 and os_[0].kind == "expr" else lw
+        types, meta = set(), False
+        if isinstance(lw, ast.Call) and last_attr(lw) == "or_":
+            for a in lw.args:
+                if isinstance(a, ast.Call) and last_attr(a) == "is_type":
+                    types |= {x.value for x in a.args if isinstance(x, ast.Constant)}
+                if isinstance(a, ast.Call) and last_attr(a) == "is_meta":
+                    meta = True
+        need = {"comment", "whitespace", "select_clause_modifier"}
+        chk.require(
+            need <= types and meta, "R14d", c,
+            f"the scan for a comment after SELECT continues only over {sorted(types)}{' and metas' if meta else ''}: it stops at {sorted(need - types) or 'a meta'} before reaching a comment "
+            "further along the SELECT line, the 'do not autofix' gate does not fire and the target is moved up behind that comment",
+            detail="LT09: comment scan walks over comments, whitespace, metas and the select modifier",
+        )
+    chk.count("R14d.comment_scans", scans)
+    chk.floor("R14d.comment_scans", 1)
+
+
+def _r14e(chk, repo) -> None:
+    from ..idioms import conditions_at
+
+    f = repo.fn("src/sqlfluff/rules/layout/LT12.py", "get_trailing_newlines")
+    cfg = cfg_of(f)
+    loops = [l for l in walk_local(f) if isinstance(l, ast.For) and isinstance(l.iter, ast.Call) and last_attr(l.iter) == "recursive_crawl_all"]
+    if not loops:
+        raise AnalysisError("R14e: get_trailing_newlines has no recursive_crawl_all scan; re-confirm the anchor by hand")
+    n = 0
+    for l in loops:
+        breaks = [b for b in ast.walk(l) if isinstance(b, ast.Break)]
+        chk.require(bool(breaks), "R14e", l, "the backward scan never stops: every newline of the file is a 'trailing newline' and LT12 deletes them", detail="LT12 scan: has a stop")
+        for b in breaks:
+            n += 1
+            bad = []
+            for e, pol in conditions_at(cfg, b):
+                if isinstance(e, ast.UnaryOp) and isinstance(e.op, ast.Not):
+                    e, pol = e.operand, not pol
+                neg_ok = (
+                    (isinstance(e, ast.Attribute) and e.attr in ("is_whitespace", "is_meta"))
+                    or (isinstance(e, ast.Call) and last_attr(e) == "is_type" and all(isinstance(a, ast.Constant) for a in e.args))
+                )
+                if not (neg_ok and not pol):
+                    bad.append(("" if pol else "not ") + short(e, 40))
+            chk.require(
+                not bad, "R14e", b,
+                f"the backward scan for trailing newlines only stops under {bad}: it walks back through segments that are neither whitespace nor metas (comments), "
+                "so newlines between trailing comment lines are 'trailing' too and LT12 deletes them (`-- a` / `-- b` become `-- a-- b`)",
+                detail="LT12 scan: stops at the first non-whitespace, non-meta segment",
+            )
+    chk.count("R14e.scan_stops", n)
+    chk.floor("R14e.scan_stops", 1)
+
+
 def run(chk) -> None:
     chk.rule("R14a", "in rules/layout and utils/reflow only WhitespaceSegment/NewlineSegment are constructed (constant text whitespace-only); x.edit(raw) only on whitespace/newline/indent receivers; other .edit() calls pass only source_fixes/source_str")
     chk.rule("R14b", "every LintFix delete in rules/layout and utils/reflow removes something established as whitespace/newline/indent, or is one half of a move (same expression re-created alongside), or is a reviewed site whose recorded facts still hold; layout rules do not call ReflowSequence.without()")
     repo = chk.repo
     _r14c(chk, repo)
+    chk.rule("R14d", "LT09 (single select target) returns a result with fixes only where `comment_after_select_idx == -1` is known: a target is never moved up onto a SELECT line that carries a comment")
+    chk.rule("R14e", "LT12's backward scan for trailing newlines ends at the first segment that is not whitespace / a meta / the end-of-file marker -- in particular at a comment: the conditions of its `break` are only negated is_whitespace / is_meta / is_type(..) tests")
+    _r14d(chk, repo)
+    _r14e(chk, repo)
     mods = [m for s in SCOPES for m in repo.iter_modules(s)]
     pv = Prover(repo, mods)
     used: Dict[Tuple[str, str], int] = {}
@@ -1276,6 +1391,37 @@ LT = "src/sqlfluff/rules/layout/"
 RF = "src/sqlfluff/utils/reflow/"
 
 VARIANTS: List[Variant] = [
+    Variant(
+        "lt09-gate-only-for-inline-comments", "src/sqlfluff/rules/layout/LT09.py",
+        "        if select_targets_info.comment_after_select_idx != -1:\n",
+        "        if select_targets_info.comment_after_select_idx != -1 and select_children[\n            select_targets_info.comment_after_select_idx\n        ].is_type(\"inline_comment\"):\n",
+        "R14d", "_eval_single_select_target_element", "seeded C14-3: `SELECT /* x */ -- y` + target on the next line",
+    ),
+    Variant(
+        "lt09-comment-scan-stops-at-the-modifier", "src/sqlfluff/rules/layout/LT09.py",
+        "                    sp.is_type(\"select_clause_modifier\"),\n",
+        "",
+        "R14d", "_get_indexes", "the defect repaired in /repo: `SELECT DISTINCT -- c` + target on the next line",
+    ),
+    Variant(
+        "quiet-lt09-gate-through-a-boolean-local", "src/sqlfluff/rules/layout/LT09.py",
+        "        if select_targets_info.comment_after_select_idx != -1:\n",
+        "        comment_on_select_line = select_targets_info.comment_after_select_idx >= 0\n        if comment_on_select_line:\n",
+        "QUIET", None, "R14d: the gate held in a boolean local, spelled >= 0",
+    ),
+    Variant(
+        "lt12-scan-stops-at-code-only", "src/sqlfluff/rules/layout/LT12.py",
+        "        if not seg.is_whitespace and not seg.is_type(\"dedent\", \"end_of_file\"):\n",
+        "        if seg.is_code:\n",
+        "R14e", "get_trailing_newlines", "seeded C14-4: trailing comment lines are glued together",
+    ),
+    Variant(
+        "quiet-lt12-scan-continue-form", "src/sqlfluff/rules/layout/LT12.py",
+        "        if not seg.is_whitespace and not seg.is_type(\"dedent\", \"end_of_file\"):\n            break\n",
+        "        if seg.is_whitespace or seg.is_type(\"dedent\", \"end_of_file\"):\n            continue\n        break\n",
+        "QUIET", None, "R14e: the same stop written as continue / break",
+    ),
+
     Variant(
         "respace-comment-guard-only-under-parent-config", RF + "respace.py",
         "        # Prohibit stripping newlines adjacent to comment segments (either\n        # immediately before or immediately after this point), since doing\n        # so could glue code to a comment marker and change meaning.\n        if any(seg.is_type(\"comment\") for seg in prev_block.segments) or any(\n            seg.is_type(\"comment\") for seg in next_block.segments\n        ):\n            strip_newlines = False\n",
